@@ -15,6 +15,7 @@ import SqiProofs.GfFp2Batch
 import SqiProofs.Primes
 import SqiProofs.GfX86Refines
 import SqiProofs.GfX86Inv
+import SqiProofs.GfX86Coeffs
 import SqiGen.GfGcd
 import SqiProofs.FiatLayer1
 import SqiProofs.FiatLayer3
@@ -580,22 +581,32 @@ theorem gf_sqrt_spec (a : Nat) (ha : a < 2 ^ P.B) :
 theorem gf_sqrt_root [Fact P.q.Prime] (a : Nat) (ha : a < 2 ^ P.B) (hsq : IsSquare (xval P a)) :
     xval P (X86.sqrt P a).1 * xval P (X86.sqrt P a).1 = xval P a := sqrt_root P hP ha hsq
 
+omit hP in
+/-- Pornin binary GCD, inner loop: the packed 31-step inner loop on the 64-bit approximations (`innerLoop 31`, coefficients packed
+    as `f + g·2^32` in one word, `unpack`) yields update coefficients with `|f|, |g| ≤ 2^31` whose combinations with the FULL-WIDTH
+    `a, b` are divisible by `2^31` — for every state with `b` odd (`SqiProofs.GfX86Coeffs`: invariant "packed ≡ f + g·2^32,
+    −2^i < f, g ≤ 2^i, xa₀·f0 + xb₀·g0 = 2^i·xa, xa₀·f1 + xb₀·g1 = 2^i·xb, xb odd" over the 31 steps, and
+    `approx ≡ (a, b) mod 2^31`).  This was a cited hypothesis until round 6. -/
+theorem gf_div_inner_coeffs (st : DivSt) (hb : st.b % 2 = 1) :
+    SqiProofs.GfX86.CoeffsOK st (SqiProofs.GfX86.outerCoeffs P st) :=
+  SqiProofs.GfX86.coeffsOK_of_odd P st hb
+
 /-- Pornin binary GCD (inversion / division): one outer iteration of the model's `divOuterStep` preserves
-    the invariant `a·x·2^k ≡ y·u ∧ b·x·2^k ≡ y·v (mod q)` (with k ↦ k+31) for any update coefficients
-    that satisfy `CoeffsOK` (bounded by 2^31, combinations divisible by 2^31).  PARTIAL: that the inner
-    loop produces such coefficients and that gcd is reached within the fixed iteration counts is cited
-    (Pornin, eprint 2020/972), so there is no end-to-end theorem for `invert` / `legendre`; both are tied
-    to the C code by execution on every run. -/
+    the invariant `a·x·2^k ≡ y·u ∧ b·x·2^k ≡ y·v (mod q)` (with k ↦ k+31), for every state with `b` odd and `a, b, u, v` in range
+    (no hypothesis on the inner loop any more).  PARTIAL: that `a, b` stay below `2^(64n−1)`, that `b` stays odd, and that the gcd is
+    reached within the fixed iteration counts is cited (Pornin, eprint 2020/972) — hypothesis `PorninConvergence` of
+    `x86_backend_refines` — so there is no end-to-end theorem for `invert` / `legendre`; both are tied to the C code by execution
+    on every run, the iteration budget by translation (`gcd_budget`). -/
 theorem gf_div_outer_invariant_partial (st : DivSt) (k : Nat) (x y : Int)
     (ha : st.a < 2 ^ (64 * P.n - 1)) (hb : st.b < 2 ^ (64 * P.n - 1))
     (hu : st.u < 2 ^ P.B) (hv : st.v < 2 ^ P.B)
-    (hc : SqiProofs.GfX86.CoeffsOK st (SqiProofs.GfX86.outerCoeffs P st))
+    (hodd : st.b % 2 = 1)
     (h1 : (P.q : Int) ∣ (st.a : Int) * x * 2 ^ k - y * st.u)
     (h2 : (P.q : Int) ∣ (st.b : Int) * x * 2 ^ k - y * st.v) :
     (divOuterStep P st).u < 2 ^ P.B ∧ (divOuterStep P st).v < 2 ^ P.B ∧
     (P.q : Int) ∣ ((divOuterStep P st).a : Int) * x * 2 ^ (k + 31) - y * (divOuterStep P st).u ∧
     (P.q : Int) ∣ ((divOuterStep P st).b : Int) * x * 2 ^ (k + 31) - y * (divOuterStep P st).v :=
-  SqiProofs.GfX86.divOuterStep_invariant P hP st k x y ha hb hu hv hc h1 h2
+  SqiProofs.GfX86.divOuterStep_invariant P hP st k x y ha hb hu hv (SqiProofs.GfX86.coeffsOK_of_odd P st hodd) h1 h2
 
 /-- the x86 model satisfies the GF(p²)/C06 interface `FpRefines`; arithmetic fields proved, the fields
     resting on the binary GCD (`inv`, `isSquare`) are the explicit hypothesis `X86Cited` -/
